@@ -208,6 +208,7 @@ func (e *Engine) verifyFunc(fc *FuncContract) (res *FuncResult) {
 	e.ensureMapHeaps(st)
 	st.Mem = e.fresh("Mem0", SHeap)
 	st.alloc = e.fresh("alloc0", SInt)
+	e.alloc0 = st.alloc
 	e.assumeGlobal(Ge(st.alloc, I(1)), "allocation pointer starts above nil")
 	e.computeEscaping(body)
 	params := e.paramObjects(fc)
